@@ -12,7 +12,7 @@ PID = "C05"
 
 def run(ck: Check, spec=None, keys=KEYS, what="connection LTS != implementation (lifecycle projection)", pid=PID, timed=False):
     scen = connlts.pool(ck, pairs=ck.tier == "thorough")
-    scen = scen + connlts.sockfault_pool()
+    scen = scen + connlts.sockfault_pool() + connlts.rawfail_pool()
     if timed:
         scen = scen + connlts.noise_pool()
     results = connlts.run_pool(scen, timed=timed)
